@@ -407,9 +407,8 @@ def _do(name, obj, other, arg):
         return bool(obj.is_equivalent_to(other))
     if name == "fa.to_dict":
         d = obj.to_dict()
-        n = sum(len(v2) for v in d.values() for v2 in v.values()) if d else 0
         d.clear()                       # alias fault: the returned dictionary is the caller's
-        return n
+        return True                     # (its size is internal structure for derived automata: not compared)
     if name == "fa.shared":
         from pyformlang.finite_automaton import EpsilonNFA
         e = EpsilonNFA()
@@ -468,9 +467,8 @@ def _do(name, obj, other, arg):
         return m(other) if other is not None else m()
     if name == "pda.to_dict":
         d = obj.to_dict()
-        n = len(d)
         d.clear()                       # alias fault
-        return n
+        return True
     if name.startswith("pda."):
         m = getattr(obj, name[4:])
         return m(other) if other is not None else m()
